@@ -66,6 +66,9 @@ func main() {
 	case "c16worker": // C16 protocol-level event time, one case per process (c16_proto.go)
 		c16WorkerMain()
 		return
+	case "c16cworker": // C16 protocol-level event content, one case per process (c16_content.go)
+		c16cWorkerMain()
+		return
 	case "c12kworker": // C12 selection / percentile / RED kernels in a child process (c12_trace.go)
 		c12kWorkerMain()
 		return
